@@ -228,6 +228,12 @@ impl Ctx {
                         // ... and through the wire
                         let acc2 = guarded(|| p2.to_bytes().ok().and_then(|b| SignedPublicKey::from_bytes(&b[..]).ok()).map(|p| p.verify_bindings().is_ok())).ok().flatten().unwrap_or(false);
                         self.out.case("", &[], &["several-signatures".into(), cls.into(), "subkey".into(), bn.into(), on.into()], &format!("accepted={} after-reparse={}", acc as u8, acc2 as u8), Some(!acc && !acc2), &format!("{cls}-subkey-several-{on}"));
+                        // the secret-key twin of the same check
+                        if !key.secret_subkeys.is_empty() {
+                            let mut s2 = key.clone(); s2.secret_subkeys[0].signatures = p2.public_subkeys[0].signatures.clone();
+                            let acc3 = guarded(|| s2.verify_bindings().is_ok()).unwrap_or(true);
+                            self.out.case("", &[], &["several-signatures".into(), cls.into(), "secret-subkey".into(), bn.into(), on.into()], &format!("accepted={}", acc3 as u8), Some(!acc3), &format!("{cls}-secret-subkey-several-{on}"));
+                        }
                     }
                 }
                 let mut p2 = pk.clone(); p2.public_subkeys[0].signatures = vec![good.clone(), good.clone()];
